@@ -12,6 +12,7 @@ RULE = ('case = (generated storage-schemas.conf, storage-aggregation.conf, metri
         'must equal an evaluator written from the documented formats; section sets of <=4 are used in every order; '
         'non-trivial = name matching >=2 sections or none; distinct = (files, name)')
 RULE_MORE = (' Also: empty pattern values, zero-width and Unicode-dependent patterns, values containing ; and #, tagged and non-ASCII names, sections named DEFAULT (modelled as ConfigParser documents them).')
+RULE_MORE = RULE_MORE + ' Round 11: names with empty path elements and patterns about them.'
 RULE = RULE + RULE_MORE
 EXHAUSTIVE = {'quick': True, 'thorough': True}
 EXHAUSTIVE_OVER = 'all orders of every generated section set with <= 4 sections (quick: <= 3)'
